@@ -59,7 +59,7 @@ def c01(res, tier, deadline):
                             "n=1-3,k=3,d=2,shapes=RRR|RNRR|VRP", "C01", dump_mod=997))
     else:
         runs = [
-            Run("rel", "dispatch", "n=1-5,k=2,d=4,shapes=RR;n=6,k=2,d=2,shapes=RR", "C01",
+            Run("rel", "dispatch", "n=1-5,k=2,d=4,shapes=RR;n=6,k=2,d=3,shapes=RR", "C01",
                 dump_mod=9973),
             Run("rel", "dispatch", "n=1-7,k=1,d=3,shapes=R;n=1-6,k=1,d=4,shapes=R", "C01",
                 dump_mod=9973, label="rel/plain/dispatch-unary"),
@@ -125,7 +125,7 @@ def c03(res, tier, deadline):
                     label="rel/plain/history-from-full")]
     else:
         runs = [Run("rel", "dispatch", "n=1-5,k=2,d=4,shapes=RR;n=1-6,k=1,d=4,shapes=R;"
-                    "n=1-4,k=3,d=3,shapes=RRR;n=1-4,k=4,d=2,shapes=RRRR;n=6,k=2,d=2,shapes=RR",
+                    "n=1-4,k=3,d=3,shapes=RRR;n=1-4,k=4,d=2,shapes=RRRR;n=6,k=2,d=3,shapes=RR",
                     "C03", dump_mod=9973),
                 Run("dbg", "dispatch", "n=1-5,k=2,d=3,shapes=RR|RNR", "C03", dump_mod=9973),
                 Run("rel", "history", "", "C03", extra="depth=5,start=" + HIST_FULL,
